@@ -114,11 +114,27 @@ def run(tier, seed, replay=None):
     cases, meta = [], {}
     B = 40
 
-    def add(cid, doc, kind, payload, **opts):
+    def add(cid, doc, kind, payload, settings=None, **opts):
         o = {"has_impl": False, "code": False, "hooks": False}
         o.update(opts)
-        cases.append({"id": cid, "settings": {}, "history": [{"op": "root", "schema": doc}], "opts": o})
+        cases.append({"id": cid, "settings": settings or {}, "history": [{"op": "root", "schema": doc}], "opts": o})
         meta[cid] = {"kind": kind, "names": payload}
+
+    # names that meet identifiers typify synthesises itself: the flattened `extra` map of a typed
+    # additionalProperties, builder / conversion method names, generic parameter names
+    synth = ["extra", "Extra", "-extra", "EXTRA", "extra_", "build", "default", "try_from", "from", "new", "clone",
+             "value", "error", "T", "F", "builder", "defaults", "subtype_0", "Self", "into"]
+    fillers = ["alpha", "zeta", "f0", "m_id"]
+    k_ = 0
+    for nm in synth:
+        for extra_ in (None, {"type": "string"}, {"type": "integer"}):
+            for fs in ([], fillers[:2], fillers[1:]):
+                ns = [nm] + fs
+                t = {"type": "object", "properties": {n_: {"type": "integer"} for n_ in ns}, "required": ns[:1]}
+                if extra_:
+                    t["additionalProperties"] = extra_
+                add("s%04d" % k_, {"definitions": {"T": t}}, "synth", ns, settings={"struct_builder": bool(k_ % 2)})
+                k_ += 1
 
     for bi in range(0, len(allnames), B):
         batch = allnames[bi:bi + B]
@@ -157,6 +173,7 @@ def run(tier, seed, replay=None):
         cases += retry
     by_case = {c["id"]: c for c in cases}
     compile_pool = []
+    synth_ok = []
     for cid, res in results.items():
         m = meta[cid]
         st = vgen.ingest_status(res)
@@ -205,6 +222,23 @@ def run(tier, seed, replay=None):
                     break
                 if not nm.isidentifier() or not nm.isascii():
                     rep.nontrivial.add((m["kind"], nm))
+        elif m["kind"] == "synth":
+            it = items.get("T")
+            members = (it or {}).get("fields") or []
+            idents = [x.get("ident") for x in members]
+            effs = [eff_name(x) for x in members]
+            if it is None:
+                rep.violation("type_missing", "synth", {"names": m["names"]}, case=case, meta=m)
+                ok = False
+            elif len(set(idents)) != len(idents):
+                rep.violation("duplicate_ident", "synth", {"names": m["names"], "idents": idents}, case=case, meta=m)
+                ok = False
+            elif any(n_ not in effs for n_ in m["names"]):
+                rep.violation("wire_name_lost", "synth", {"names": m["names"], "effective": effs}, case=case, meta=m)
+                ok = False
+            else:
+                rep.nontrivial.add(("synth", tuple(m["names"]), bool(case["settings"].get("struct_builder"))))
+                synth_ok.append(cid)
         elif m["kind"] == "def":
             nm = m["names"][0]
             d = defs.get(nm) or {}
@@ -254,12 +288,12 @@ def run(tier, seed, replay=None):
     # behavioural sample: compile and round trip under the original names
     r = util.rng(seed, PROP, "compile")
     k = 40 if tier == "quick" else 250
-    sample = sorted(r.sample(compile_pool, min(k, len(compile_pool))))
+    sample = sorted(r.sample(compile_pool, min(k, len(compile_pool))) + synth_ok)
     if sample:
         sub = [dict(by_case[c], opts={"has_impl": False}) for c in sample]
         run3 = pipeline.Run(PROP, "compile")
         res3 = run3.vgen(sub)
-        run3.compile(want_builder=False, want_str=False, want_default=False)
+        run3.compile(want_builder=True, want_str=False, want_default=False)
         probes = []
         for cid in sample:
             m = meta[cid]
@@ -276,6 +310,9 @@ def run(tier, seed, replay=None):
                     t = norm((defs.get("T%d" % i) or {}).get("name") or "")
                     v = {nm: 5} if m["kind"] == "prop" else (nm if m["kind"] == "enum" else {nm: PAYLOAD_VALUES[i % len(PAYLOADS)]})
                     probes.append({"pid": len(probes), "case": cid, "ty": t, "op": "de", "input": json.dumps(v), "v": v})
+            elif m["kind"] == "synth":
+                v = {n_: 5 for n_ in m["names"]}
+                probes.append({"pid": len(probes), "case": cid, "ty": "T", "op": "de", "input": json.dumps(v), "v": v})
             else:
                 a, b = m["names"]
                 v = {a: 5, b: "s"} if m["kind"] == "pair_prop" else a
